@@ -12,6 +12,7 @@ type ReAST struct {
 	C   int
 	Set []int
 	Neg bool
+	N   []int // cap: group name
 	A   *ReAST
 	B   *ReAST
 }
@@ -30,6 +31,8 @@ func (r *ReAST) MarshalJSON() ([]byte, error) {
 		return json.Marshal(map[string]any{"t": r.T, "a": r.A, "b": r.B})
 	case "star", "plus", "opt":
 		return json.Marshal(map[string]any{"t": r.T, "a": r.A})
+	case "cap":
+		return json.Marshal(map[string]any{"t": r.T, "name": r.N, "a": r.A})
 	}
 	return json.Marshal(map[string]any{"t": r.T})
 }
@@ -72,12 +75,73 @@ func (r *ReAST) Text() string {
 		return grp(r.A.Text()) + "+"
 	case "opt":
 		return grp(r.A.Text()) + "?"
+	case "cap":
+		return "(?P<" + S(r.N) + ">" + r.A.Text() + ")"
 	case "bol":
 		return "^"
 	case "eol":
 		return "$"
 	}
 	panic("bad regex node " + r.T)
+}
+
+// nullable: can the expression match the empty string? (repetition bodies of regexp-stage cases must not)
+func (r *ReAST) nullable() bool {
+	switch r.T {
+	case "eps", "bol", "eol", "star", "opt":
+		return true
+	case "lit", "any", "cls":
+		return false
+	case "cap", "plus":
+		return r.A.nullable()
+	case "cat":
+		return r.A.nullable() && r.B.nullable()
+	case "alt":
+		return r.A.nullable() || r.B.nullable()
+	}
+	return true
+}
+
+// genCapRe draws an expression with named groups for the regexp stage: groups inside alternatives, options and
+// repetitions (so that some take no part in a match), repetition bodies that consume at least one byte.
+func genCapRe(r *rand.Rand, depth int, alphabet string, names *[]string) *ReAST {
+	leaf := func() *ReAST {
+		switch r.Intn(5) {
+		case 0:
+			return &ReAST{T: "any"}
+		case 1:
+			return &ReAST{T: "cls", Set: []int{int(alphabet[r.Intn(len(alphabet))]), '0' + r.Intn(3)}, Neg: r.Intn(4) == 0}
+		default:
+			c := int(alphabet[r.Intn(len(alphabet))])
+			return &ReAST{T: "lit", C: c}
+		}
+	}
+	if depth <= 0 {
+		return leaf()
+	}
+	sub := func() *ReAST { return genCapRe(r, depth-1, alphabet, names) }
+	switch r.Intn(9) {
+	case 0, 1:
+		if len(*names) > 0 {
+			n := (*names)[0]
+			*names = (*names)[1:]
+			return &ReAST{T: "cap", N: B(n), A: sub()}
+		}
+		return leaf()
+	case 2, 3:
+		return &ReAST{T: "cat", A: sub(), B: sub()}
+	case 4:
+		return &ReAST{T: "alt", A: sub(), B: sub()}
+	case 5:
+		return &ReAST{T: "opt", A: sub()}
+	case 6, 7:
+		body := sub()
+		if body.nullable() {
+			body = &ReAST{T: "cat", A: leaf(), B: body}
+		}
+		return &ReAST{T: []string{"star", "plus"}[r.Intn(2)], A: body}
+	}
+	return leaf()
 }
 
 // genReA: genRe, one time in four anchored at the beginning, the end or both (^ and $ without the m flag).
